@@ -19,6 +19,7 @@ Rec == ndJsonDeserialize(IOEnv.TRACE)
 
 TI_Own == 5
 TI_OwnP == [p1 |-> 128, p2 |-> 128]
+TI_OwnP_P == [p1 |-> 128, p2 |-> 120]     \* record variant P: own priority1 and priority2 differ
 TI_Q0 == [class |-> 248, acc |-> 254, var |-> 65535]
 TI_TP0 == [utc |-> NoUtc, leap |-> 0, tt |-> FALSE, ft |-> FALSE, ptp |-> FALSE, src |-> 160]
 E2E(mo, aml) == [p2p |-> FALSE, mo |-> mo, aml |-> aml, keep |-> 1]
@@ -64,6 +65,7 @@ Mismatch(r, s2, res) ==
   \cup M("tp", r.obs.tp # s2.tp) \cup M("path", r.obs.path # s2.path) \cup M("dds.so", r.obs.so # s2.so) \cup M("snap.mpd", r.obs.mpd # s2.mpd)
   \cup M("snap.nseq", r.obs.nseq # [p \in Ports |-> <<s2.nseq[p].ann, s2.nseq[p].sync, s2.nseq[p].dreq, s2.nseq[p].pdreq>>])
   \cup M("snap.fml", r.obs.fml # [p \in Ports |-> FmlOf(s2, p)])
+  \cup M("snap.rm", r.obs.rm # [p \in Ports |-> IF s2.pst[p] = "S" THEN s2.rm[p] ELSE NoPid])
   \cup M("rng", r.obs.rng # s2.rngc)
   \cup (IF "pend" \in DOMAIN res
         THEN (IF "pend" \in DOMAIN r.obs THEN M("pend", r.obs.pend # [p \in Ports |-> AbsOut(res.pend[p])]) ELSE {"pend"})
